@@ -46,3 +46,7 @@ fn c10_allocation_new_and_drop() {
     oblige!("C10.allocation.drop_marks_dropped_and_keeps_entry", dropped && crate::rt::object::verif_kani::store_len(crate::rt::execution::verif_kani::objects(&ex)) == 1);
     reach!("c10_allocation_new_and_drop");
 }
+
+pub(crate) fn is_live(s: &State) -> bool {
+    !s.is_dropped
+}
